@@ -436,7 +436,17 @@ func MergeFuncUpdateCgroup(resource ResourceUpdater, mergeCondition MergeConditi
 	klog.V(6).Infof("merge update cgroup %v with merged value[%v], original new[%v], old[%v]",
 		c.Path(), mergedValue, c.value, oldStr)
 	// suppose current value is different
-	return resource, cgroupFileWrite(c.parentDir, c.file, mergedValue)
+	if err = cgroupFileWrite(c.parentDir, c.file, mergedValue); err != nil {
+		return resource, err
+	}
+	if mergedValue != c.value {
+		// the file now holds the merged value rather than the target one; report what was written
+		// so that the caller does not consider the target value as already applied.
+		merged := resource.Clone().(*CgroupResourceUpdater)
+		merged.value = mergedValue
+		return merged, nil
+	}
+	return resource, nil
 }
 
 // MergeConditionIfValueIsLarger returns a merge condition where only do update when the new value is larger.
